@@ -100,6 +100,7 @@ func c17R7(c *Ctx, p *Prog) {
 				// the values arriving over back edges, with merges inside the loop flattened
 				var leaves []ssa.Value
 				seen := map[ssa.Value]bool{}
+				accNodes := map[*ssa.BinOp]bool{}
 				var flat func(v ssa.Value)
 				flat = func(v ssa.Value) {
 					if seen[v] {
@@ -112,6 +113,23 @@ func c17R7(c *Ctx, p *Prog) {
 						}
 						return
 					}
+					// an accumulation step `carried op x` (x independent of the carried value) passes the carried value on
+					if bo, ok := stripConv(v).(*ssa.BinOp); ok && bo.Block() != nil && inLoop(bo.Block()) {
+						switch bo.Op {
+						case token.ADD, token.OR, token.XOR, token.AND, token.MUL, token.SUB:
+							dx, dy := dependsOn(bo.X, ph), dependsOn(bo.Y, ph)
+							if dx && !dy {
+								accNodes[bo] = true
+								flat(bo.X)
+								return
+							}
+							if dy && !dx && bo.Op != token.SUB {
+								accNodes[bo] = true
+								flat(bo.Y)
+								return
+							}
+						}
+					}
 					leaves = append(leaves, v)
 				}
 				for i, e := range ph.Edges {
@@ -119,19 +137,23 @@ func c17R7(c *Ctx, p *Prog) {
 						flat(e)
 					}
 				}
-				kept, fresh, accum, other := 0, 0, 0, 0
+				kept, fresh, freshConst, accum, other := 0, 0, 0, 0, 0
+				var freshVals []ssa.Value
 				for _, v := range leaves {
 					switch {
 					case v == ssa.Value(ph):
 						kept++
-					case accumulates(v, ph):
-						accum++
 					case dependsOn(v, ph):
 						other++
 					default:
 						fresh++
+						freshVals = append(freshVals, v)
+						if _, isc := v.(*ssa.Const); isc {
+							freshConst++
+						}
 					}
 				}
+				accum = len(accNodes)
 				if kept+fresh+accum+other == 0 || (fresh == 0 && accum == 0 && other == 0) {
 					continue // invariant across the loop
 				}
@@ -140,19 +162,79 @@ func c17R7(c *Ctx, p *Prog) {
 				if nm == "" {
 					nm = ph.Name()
 				}
+				// how is the carried value used inside the loop? merged (not a use), compared with the value that
+				// replaces it (the max/min idiom), or consumed (stored, passed on, computed with)
+				web := map[ssa.Value]bool{ph: true}
+				for v := range seen {
+					if q, ok := v.(*ssa.Phi); ok && q != ph && inLoop(q.Block()) && q.Block() != hdr {
+						web[q] = true
+					}
+				}
+				consumed, comparedOther := false, false
+				for w := range web {
+					refs := w.Referrers()
+					if refs == nil {
+						continue
+					}
+					for _, r := range *refs {
+						if _, isDbg := r.(*ssa.DebugRef); isDbg || r.Block() == nil || !inLoop(r.Block()) {
+							continue
+						}
+						if rv, ok := r.(ssa.Value); ok && web[rv] {
+							continue
+						}
+						if bo, ok := r.(*ssa.BinOp); ok {
+							switch bo.Op {
+							case token.EQL, token.NEQ, token.LSS, token.LEQ, token.GTR, token.GEQ:
+								otherSide := bo.X
+								if web[stripConv(bo.X)] {
+									otherSide = bo.Y
+								}
+								isFresh := false
+								for _, fv := range freshVals {
+									if sameValue(stripConv(otherSide), stripConv(fv), 0) {
+										isFresh = true
+									}
+								}
+								if !isFresh {
+									comparedOther = true
+								}
+								continue
+							}
+							if accNodes[bo] {
+								continue
+							}
+						}
+						consumed = true
+					}
+				}
+				setv := func(v, w string) {
+					if verdict == "fail" || (verdict == "undec" && v == "undec") {
+						return
+					}
+					verdict, why, pos = v, w, ph.Pos()
+				}
 				switch {
 				case other > 0:
-					if verdict == "ok" {
-						verdict, why, pos = "undec", "the value "+nm+" is carried between the two colours' iterations in a form that is not plain accumulation", ph.Pos()
+					setv("undec", "the value "+nm+" is carried between the two colours' iterations in a form that is not plain accumulation")
+				case fresh == 0:
+					// pure accumulation
+					if consumed {
+						setv("undec", "the running total "+nm+" is read inside the colour loop: Black's iteration sees White's contribution")
 					}
-				case fresh > 0 && kept > 0:
-					verdict, why, pos = "fail", "the local "+nm+" keeps the value computed in the White iteration whenever the Black iteration does not assign it: Black's term then depends on White's pieces (never the other way round), so a position and its mirror image are scored differently", ph.Pos()
-				case fresh > 0 && usedInLoop(ph, inLoop):
-					verdict, why, pos = "fail", "the value "+nm+" computed in the White iteration is read in the Black iteration before being recomputed", ph.Pos()
-				case fresh > 0 && accum > 0:
-					if verdict == "ok" {
-						verdict, why, pos = "undec", "the local "+nm+" is both accumulated and overwritten across the colours' iterations", ph.Pos()
-					}
+				case accum > 0:
+					setv("undec", "the local "+nm+" is both accumulated and overwritten across the colours' iterations")
+				case consumed && kept > 0:
+					setv("fail", "the local "+nm+" keeps the value computed in the White iteration whenever the Black iteration does not assign it, and that value is used inside the loop: Black's term then depends on White's pieces (never the other way round), so a position and its mirror image are scored differently")
+				case consumed:
+					setv("fail", "the value "+nm+" computed in the White iteration is used in the Black iteration before being recomputed: Black's term depends on White's pieces, never the other way round")
+				case kept > 0 && fresh == freshConst && !comparedOther:
+					// a flag that is only ever set: the outcome is the OR over both colours
+				case kept > 0 && !comparedOther:
+					// replaced under a comparison with its replacement only (running maximum / minimum) or last writer wins
+					setv("undec", "the local "+nm+" is overwritten in some iterations and kept in others; whether the outcome is independent of the order of the colours is not decided")
+				default:
+					setv("undec", "the local "+nm+" is carried across the colours' iterations in a form that is not decided")
 				}
 			}
 			if !pos.IsValid() {
